@@ -1,6 +1,5 @@
 import FqModel.Scalar
 import FqModel.C02Call
-import FqModel.Gen.DecodeGen
 import Proofs.C02Int
 import Proofs.C02Rev
 import Proofs.C02Le
@@ -9,10 +8,13 @@ import Proofs.C02Sleb
 import Proofs.C02Misc
 import Proofs.C02F16
 import Proofs.C02Float
+import Proofs.C02Text
+import Proofs.C02Big
 /-!
   C02 — "Scalar readers return the mathematical value of the bits they consume".
   Property theorems about the model FqModel/Scalar.lean (+ the regenerated table of
-  decode_gen.go).  Helper lemmas: Proofs/C02*.lean.
+  decode_gen.go, in Props/C02Gen.lean so that a change of decode_gen.go re-checks only that file).
+  Helper lemmas: Proofs/C02*.lean.
 
   Conventions: `bs` is the whole input (any length, not only whole bytes), `pos` any bit
   position (any alignment), `ofBitsBE (slice bs pos n)` the big-endian value of the n bits at
@@ -23,32 +25,7 @@ import Proofs.C02Float
   the end of the input (bitio.ReadFull reads what is left).  The property only requires the error.
 -/
 namespace Props.C02
-open FqModel FqModel.Scalar FqModel.C02 FqModel.Gen.DecodeGen Proofs.C02
-
-/-! ### regenerated fact: decode_gen.go -/
-
-/-- REGENERATED FACT.  Every method of decode_gen.go whose NAME is a reader name (Try/Field/Scalar
-    prefixes + U8, S13LE, F64BE, FP32, UBigIntE, ULEB128, UTF16LENull …) either calls the core
-    function that the name stands for with the width, endian and encoding that the name stands for,
-    or passes its own parameters unchanged to a method of strictly lower layer whose name stands
-    for the same core call.  (By induction on the layer rank every reader method therefore ends in
-    the right core call; the Go compiler guarantees that the delegation targets exist.) -/
-theorem gen_table_ok : genTable.all entryOk = true := by decide +kernel
-
-/-- the table is not vacuous: 2460 of the 2549 methods are readers (the rest are the typed
-    Field…Fn / …Assert / …Validate helpers) -/
-theorem gen_table_readers : (genTable.filter isReader).length = 2460 ∧ genTable.length = genCount := by
-  decide +kernel
-
-/-- what some names stand for (the parser is not vacuous either) -/
-theorem parseName_examples :
-    parseName [84,114,121,85,50,52,76,69] = some (.try_, .tryUEndian, [.lit 24, .le])            -- TryU24LE
-    ∧ parseName [70,105,101,108,100,83,49,51] = some (.field, .trySEndian, [.lit 13, .curEndian])  -- FieldS13
-    ∧ parseName [70,80,51,50,66,69] = some (.plain, .tryFPEndian, [.lit 32, .lit 16, .be])         -- FP32BE
-    ∧ parseName [84,114,121,70,105,101,108,100,83,99,97,108,97,114,85,84,70,49,54,76,69,78,117,108,108]
-        = some (.tryFieldScalar, .tryTextNull, [.lit 2, .enc .utf16le])                            -- TryFieldScalarUTF16LENull
-    ∧ parseName [85,105,110,116,65,115,115,101,114,116] = none := by                               -- UintAssert
-  decide +kernel
+open FqModel FqModel.Scalar FqModel.C02 Proofs.C02
 
 /-! ### unsigned integers -/
 
@@ -242,6 +219,172 @@ theorem f80_double_rounding_witness :
     ∧ f80to64Spec 0x3C00 0x8000000000000BFF = 0x0008000000000001 := by
   decide +kernel
 
+/-- the float readers, big-endian, any alignment: 32 bits are widened exactly, 64 bits are the bits,
+    80 bits are correctly rounded; position advances by the width.  (Little-endian: the same on the
+    byte-reversed slice, `reverseByteOrder` — by definition of `tryFEndian`.) -/
+theorem tryF_be (bs : Bits) (pos n : Nat) (hn : n = 32 ∨ n = 64 ∨ n = 80) (h : pos + n ≤ bs.length) :
+    ∃ bits, tryFEndian bs pos n .be = .ok bits (pos + n) ∧
+      (n = 32 → (val64 bits).same (val32 (ofBitsBE (slice bs pos n))) = true) ∧
+      (n = 64 → bits = ofBitsBE (slice bs pos n)) ∧
+      (n = 80 → bits = f80to64Spec (ofBitsBE ((slice bs pos n).take 16)) (ofBitsBE ((slice bs pos n).drop 16))) := by
+  have hl : (slice bs pos n).length = n := slice_length bs pos n h
+  have hpad : (8 - n % 8) % 8 = 0 := by rcases hn with h | h | h <;> omega
+  have hflat : (bytesOf (slice bs pos n)).flatten = slice bs pos n := by
+    rw [bytesOf_flatten, hl, hpad]; simp
+  unfold tryFEndian
+  rw [tryBits_ok bs pos n h]
+  simp only [Res.bind, show (Endian.be == Endian.le) = false by decide, Bool.false_eq_true, if_false, hflat]
+  rcases hn with h32 | h64 | h80
+  · subst h32
+    exact ⟨_, by simp, fun _ => widen32_exact _, by omega, by omega⟩
+  · subst h64
+    exact ⟨_, by simp, by omega, fun _ => rfl, by omega⟩
+  · subst h80
+    refine ⟨f80to64 (ofBitsBE ((slice bs pos 80).take 16)) (ofBitsBE ((slice bs pos 80).drop 16)), by simp, by omega, by omega, fun _ => ?_⟩
+    apply f80to64_eq_spec
+    have := ofBitsBE_lt ((slice bs pos 80).take 16)
+    have hl16 : ((slice bs pos 80).take 16).length = 16 := by simp [hl]
+    rwa [hl16] at this
+
+/-- Go `float64(x)` of a float32 denotes the same number, for ALL 2^32 patterns -/
+theorem f32_widen_exact (b : Nat) : (val64 (widen32 b)).same (val32 b) = true := widen32_exact b
+
+/-- the rounding step is the identity on values that are representable: at most 53 significant bits
+    and an exponent in the binary64 normal range -/
+theorem roundF64_representable (neg : Bool) (m : Nat) (e : Int) (hm0 : m ≠ 0) (hm : m < 2 ^ 53)
+    (hlo : -1022 ≤ e + (m.log2 : Int)) (hhi : e + (m.log2 : Int) ≤ 1023) :
+    (val64 (roundF64 neg m e)).same (.fin neg m e) = true := by
+  rw [roundF64_exact neg m e hm0 hm hlo hhi]
+  exact same_norm53 neg m e (by have := (Nat.log2_lt hm0).mpr hm; omega)
+
+/-! ### fixed point (stretch) -/
+
+/-- fixed point n.f: when the integer has at most 53 significant bits the result denotes exactly
+    n / 2^f (for wider integers it is `float64(n)`, rounded to nearest even, divided exactly) -/
+theorem fp_exact (u f : Nat) (hu : u < 2 ^ 53) (hf : f < 64) :
+    (val64 (fpToF64 u f)).same (.fin false u (-(f : Int))) = true :=
+  fpToF64_exact u f hu hf
+
+theorem tryFP_be (bs : Bits) (pos n : Nat) (f : Nat) (hn : n ≤ 64) (h : pos + n ≤ bs.length) :
+    tryFPEndian bs pos n (f : Int) .be = .ok (fpToF64 (ofBitsBE (slice bs pos n)) f) (pos + n) := by
+  simp [tryFPEndian, tryUEndian_be bs pos n hn h, Res.bind]
+
+/-! ### big integers (stretch) -/
+
+/-- big-endian integers of ANY width — 1 bit, 65 bits, 512 bits, not only whole bytes — unsigned or
+    two's complement, at any alignment -/
+theorem bigInt_spec_be (bs : Bits) (pos n : Nat) (sign : Bool) (h : pos + n ≤ bs.length) :
+    tryBigIntEndianSign bs pos n .be sign
+      = .ok (if sign then signedOf n (ofBitsBE (slice bs pos n)) else (ofBitsBE (slice bs pos n) : Int)) (pos + n) :=
+  bigInt_be bs pos n sign h
+
+/-- little-endian integers of any whole-byte width -/
+theorem bigInt_spec_le (bs : Bits) (pos n : Nat) (sign : Bool) (hd : 8 ∣ n) (h : pos + n ≤ bs.length) :
+    tryBigIntEndianSign bs pos n .le sign
+      = .ok (if sign then signedOf n (leValue (slice bs pos n)) else (leValue (slice bs pos n) : Int)) (pos + n) :=
+  bigInt_le bs pos n sign hd h
+
+theorem bigInt_short (bs : Bits) (pos n : Nat) (e : Endian) (sign : Bool) (h0 : 0 < n) (h : bs.length < pos + n) :
+    tryBigIntEndianSign bs pos n e sign = .err .eof (max pos bs.length) := by
+  simp [tryBigIntEndianSign, tryBits_short bs pos n h0 h, Res.bind]
+
+/-! ### text framing (stretch): which bytes reach the text decoder, how far the position moves,
+       and where it is after a failure -/
+
+/-- fixed length: n whole bytes from any bit alignment -/
+theorem text_fixed_ok (bs : Bits) (pos n : Nat) (h : pos + 8 * n ≤ bs.length) :
+    tryTextFrame bs pos (n : Int) = .ok (byteVals (slice bs pos (8 * n))) (pos + 8 * n) :=
+  textFrame_ok bs pos n h
+
+/-- length beyond the end: error, position unchanged -/
+theorem text_fixed_short (bs : Bits) (pos n : Nat) (hp : pos ≤ bs.length) (h : bs.length < pos + 8 * n) :
+    tryTextFrame bs pos (n : Int) = .err .other pos :=
+  textFrame_short bs pos n hp h
+
+/-- null terminated (unit = 8·charBytes bits, searched on the grid pos + k·unit): if the first
+    all-zero unit is at `off`, the value bytes are those before it and the position is after it -/
+theorem text_null_found (bs : Bits) (pos cb off : Nat) (hcb : 1 ≤ cb)
+    (hf : findZeroUnit bs (8 * cb) (bs.length + 1) pos = some off) :
+    tryTextNullFrame bs pos cb
+      = .ok ((byteVals (slice bs pos (8 * ((off - pos) / 8 + cb)))).take ((off - pos) / 8)) (off + 8 * cb) :=
+  textNull_found bs pos cb off hcb hf
+
+/-- … where `findZeroUnit` finds the FIRST zero unit on the grid inside the input -/
+theorem text_null_search (bs : Bits) (unit : Nat) (hu : 0 < unit) (fuel off r : Nat)
+    (h : findZeroUnit bs unit fuel off = some r) :
+    off ≤ r ∧ r + unit ≤ bs.length ∧ unit ∣ (r - off) ∧ ofBitsBE (slice bs r unit) = 0 ∧
+    ∀ k, off + k * unit < r → ofBitsBE (slice bs (off + k * unit) unit) ≠ 0 :=
+  findZeroUnit_spec bs unit hu fuel off r h
+
+/-- missing terminator: error and the position is restored -/
+theorem text_null_missing (bs : Bits) (pos cb : Nat) (hcb : 1 ≤ cb)
+    (hf : findZeroUnit bs (8 * cb) (bs.length + 1) pos = none) :
+    tryTextNullFrame bs pos cb = .err .eof pos :=
+  textNull_missing bs pos cb hcb hf
+
+/-- fixed length with optional null: exactly n bytes consumed, value cut at the first zero byte -/
+theorem text_nullfixed_ok (bs : Bits) (pos n : Nat) (h : pos + 8 * n ≤ bs.length) :
+    tryTextNullLenFrame bs pos (n : Int)
+      = .ok ((byteVals (slice bs pos (8 * n))).takeWhile (· ≠ 0)) (pos + 8 * n) :=
+  textNullLen_ok bs pos n h
+
+/-- one-byte length prefix: the `len` bytes after it; 8 + 8·len bits consumed -/
+theorem text_short_ok (bs : Bits) (pos : Nat) (h8 : pos + 8 ≤ bs.length)
+    (h : pos + 8 + 8 * ofBitsBE (slice bs pos 8) ≤ bs.length) :
+    tryTextLenPrefixedFrame bs pos 1 (-1)
+      = .ok (byteVals (slice bs (pos + 8) (8 * ofBitsBE (slice bs pos 8)))) (pos + 8 + 8 * ofBitsBE (slice bs pos 8)) :=
+  textShort_ok bs pos h8 h
+
+/-- length beyond the end: error and the position is restored to the start of the prefix -/
+theorem text_short_restore (bs : Bits) (pos : Nat) (h8 : pos + 8 ≤ bs.length)
+    (h : bs.length < pos + 8 + 8 * ofBitsBE (slice bs pos 8)) :
+    tryTextLenPrefixedFrame bs pos 1 (-1) = .err .eof pos :=
+  textShort_restore bs pos h8 h
+
+/-! ### UTF-8 / UTF-16 codecs on code points (stretch; valid input) -/
+
+/-- UTF-8: decoding the encoding of any list of Unicode scalar values gives the list back -/
+theorem utf8_roundtrip (cs : List Nat) (h : ∀ c ∈ cs, isScalar c) :
+    utf8Decode (cs.length + 1) (cs.flatMap utf8Encode) = some cs :=
+  utf8_roundtrip_list cs h _ (by omega)
+
+/-- the UTF-8 text reader strips a leading BOM and returns valid UTF-8 unchanged -/
+theorem utf8_text_bom (cs : List Nat) (h : ∀ c ∈ cs, isScalar c) :
+    decodeText .utf8bom (0xEF :: 0xBB :: 0xBF :: cs.flatMap utf8Encode) = some (cs.flatMap utf8Encode) := by
+  have hlen : cs.length < (cs.flatMap utf8Encode).length + 1 := by
+    have : ∀ l : List Nat, l.length ≤ (l.flatMap utf8Encode).length := by
+      intro l; induction l with
+      | nil => simp
+      | cons a l ih =>
+        simp only [List.flatMap_cons, List.length_append, List.length_cons]
+        have : 1 ≤ (utf8Encode a).length := by unfold utf8Encode; split <;> (try split) <;> (try split) <;> simp
+        omega
+    have := this cs; omega
+  simp only [decodeText]
+  rw [utf8_roundtrip_list cs h _ hlen]
+  rfl
+
+/-- UTF-16, fixed byte order: the reader returns the UTF-8 encoding of the same code points
+    (surrogate pairs combined) -/
+theorem utf16_roundtrip (le : Bool) (cs : List Nat) (h : ∀ c ∈ cs, isScalar c) :
+    decodeText (if le then .utf16le else .utf16be) (unitsToBytes le (cs.flatMap utf16Encode))
+      = some (cs.flatMap utf8Encode) := by
+  have hu : ∀ u ∈ cs.flatMap utf16Encode, u < 65536 := by
+    intro u hu
+    obtain ⟨c, hc, huc⟩ := List.mem_flatMap.mp hu
+    exact utf16Encode_lt c (h c hc) u huc
+  cases le <;> simp [decodeText, units16_bytes _ _ hu, utf16_units_roundtrip cs h]
+
+/-- UTF-16 with byte order mark: the BOM selects the byte order and is not part of the text -/
+theorem utf16_bom_roundtrip (cs : List Nat) (h : ∀ c ∈ cs, isScalar c) :
+    decodeText .utf16bom (0xFE :: 0xFF :: unitsToBytes false (cs.flatMap utf16Encode)) = some (cs.flatMap utf8Encode)
+    ∧ decodeText .utf16bom (0xFF :: 0xFE :: unitsToBytes true (cs.flatMap utf16Encode)) = some (cs.flatMap utf8Encode) := by
+  have hu : ∀ u ∈ cs.flatMap utf16Encode, u < 65536 := by
+    intro u hu
+    obtain ⟨c, hc, huc⟩ := List.mem_flatMap.mp hu
+    exact utf16Encode_lt c (h c hc) u huc
+  constructor <;> simp [decodeText, units16_bytes _ _ hu, utf16_units_roundtrip cs h]
+
 /-! ### non-vacuity -/
 
 /-- tryU_be / tryU_le / tryS_*: hypotheses hold of a 13-bit read at alignment 5 and a 24-bit
@@ -264,6 +407,27 @@ example : tryULEB128 (bitsOfBytes [128, 128, 128, 128, 128, 128, 128, 128, 128, 
 /-- sleb128_roundtrip: both ends of the range are encodable, −2^63 needs all ten bytes -/
 example : slebEnc 10 (-9223372036854775808) = [128, 128, 128, 128, 128, 128, 128, 128, 128, 0x7f]
     ∧ slebEnc 10 (-123456) = [0xC0, 0xBB, 0x78] ∧ slebEnc 10 63 = [63] ∧ slebEnc 10 64 = [0xC0, 0] := by
+  decide +kernel
+
+/-- big integers: a 65-bit and a 12-bit two's complement number at odd alignments -/
+example :
+    tryBigIntEndianSign ([false] ++ List.replicate 65 true ++ [false]) 1 65 .be true = .ok (-1) 66
+    ∧ tryBigIntEndianSign (bytesToBits [0x0F, 0xFE, 0x30]) 4 12 .be true = .ok (-2) 16
+    ∧ tryBigIntEndianSign (bytesToBits [0x0F, 0xFE, 0x30]) 4 12 .be false = .ok 4094 16
+    ∧ tryBigIntEndianSign (bytesToBits [0x01, 0x00, 0x80]) 0 24 .le true = .ok (-8388607) 24 := by
+  decide +kernel
+
+/-- fixed point: 1.5 as 16.16, and the 53-bit hypothesis is needed (2^53+1 is rounded) -/
+example : fpToF64 0x18000 16 = 0x3FF8000000000000 ∧ fpToF64 (2 ^ 53 + 1) 0 = 0x4340000000000000 := by
+  decide +kernel
+
+/-- text: "hé😀" as UTF-16LE with terminator at bit alignment 3; a surrogate pair is one code point -/
+example :
+    let cs := [0x68, 0xE9, 0x1F600]
+    (∀ c ∈ cs, isScalar c) ∧ cs.flatMap utf16Encode = [0x68, 0xE9, 0xD83D, 0xDE00]
+    ∧ cs.flatMap utf8Encode = [0x68, 0xC3, 0xA9, 0xF0, 0x9F, 0x98, 0x80]
+    ∧ tryTextNullFrame ([true, false, true] ++ bitsOfBytes (unitsToBytes true (cs.flatMap utf16Encode) ++ [0, 0, 7])) 3 2
+        = .ok [0x68, 0, 0xE9, 0, 0x3D, 0xD8, 0, 0xDE] 83 := by
   decide +kernel
 
 end Props.C02
